@@ -450,6 +450,46 @@ theorem rmw (st : St α) (i : Nat) (v0 v : α) (hi : st.stored[i]? = some (some 
 
 end VObj
 
+/-! ### views of a topology object that is edited between collections (seeded C11-r7-1)
+
+`viewsLive` (Generated/Authz.lean, a behavioural probe on a real topology) says whether the views a collector reads show the
+slice as it is at the time of the read; the `live = false` reading (the interface view kept from an earlier read for as long
+as the set of nodes stays the same) is kept for the counterexample. -/
+
+namespace View
+
+/-- one topology object across collections: `cur` = the slice as it is stored now; `memo` = the interface view kept from an
+earlier read, with the node names it was computed for (consulted only when views are not live) -/
+structure St where
+  cur : Slice
+  memo : Option (List String × List Iface)
+
+def nodeKey (sl : Slice) : List String := sl.nodes.map (·.name)
+
+/-- `topo.interface_list` as a collector reads it -/
+def ifacesRead (live : Bool) (st : St) : List Iface :=
+  if live then st.cur.ifaces
+  else match st.memo with
+    | some (k, v) => if k = nodeKey st.cur then v else st.cur.ifaces
+    | none => st.cur.ifaces
+
+/-- the slice a collector is presented with -/
+def presented (live : Bool) (st : St) : Slice := { st.cur with ifaces := ifacesRead live st }
+
+/-- a collection reads the views (and leaves the memo behind when views are not live) -/
+def afterRead (live : Bool) (st : St) : St :=
+  if live then st else { st with memo := some (nodeKey st.cur, ifacesRead live st) }
+
+/-- an edit (components, services, nodes added / removed, labels set) leaves another slice stored in the same object -/
+def edit (st : St) (sl : Slice) : St := { st with cur := sl }
+
+/-- a history: collect, edit, collect, edit, ... -/
+def runHist (live : Bool) (st : St) : List Slice → St
+  | [] => st
+  | sl :: rest => runHist live (edit (afterRead live st) sl) rest
+
+end View
+
 /-- the nodes of a slice with the sizes their elements present to a reader (node `i` is element `i`) -/
 def withCaps (fresh : Bool) (ns : List NodeS) (st : VObj.St Caps) : List NodeS :=
   ns.mapIdx fun i n => { n with caps := VObj.presented fresh st i }
